@@ -34,9 +34,10 @@ def gen(rng, idx=None):
     tr = rng.choice(['D', 'D2'])
     consts = rng.sample(['12', '14'], rng.choice([1, 2])) if '{C}' in self_tmpl else [None]
     generic_const = '{C}' in self_tmpl and pk.choice([False, True, False])
+    ngroups = pk.choice([3, 2])
     blocks = []
     for fi, cval in enumerate(consts):
-        groups = rng.sample(gp.GROUPS, rng.choice([2, 2, 3]))
+        groups = rng.sample(gp.GROUPS, ngroups)
         for g in groups:
             used = [s for s in ['L0', 'T0', 'T1'] if '{%s}' % s in self_tmpl]
             slots = gp.mk_slots(rng, used)
@@ -68,7 +69,8 @@ def gen(rng, idx=None):
         order = list(slots); rng.shuffle(order)
         order = [x for x in order if x[0] == 'L'] + [x for x in order if x[0] != 'L']
         blocks.append(gp.Block({x: slots[x] for x in order}, None, self_tmpl.replace('{C}', '12'), [('{T0}', tr, {'G': free[0]}, 'where')], 'bn'))
-    if sk == 'w4' and rng.random() < 0.6:   # (w6 has no nested members: T1 may be unsized)
+    nest_plan = pk.choice(['two', 'one', 'none']) if sk == 'w4' else 'none'
+    if sk == 'w4' and nest_plan != 'none':   # (w6 has no nested members: T1 may be unsized)
         # a nested member: a more specific self type re-expressing the family's key
         used_groups = {bd[2].get('G') for b in blocks for bd in b.bounds}
         free = [x for x in gp.GROUPS + ['GD'] if x not in used_groups]
@@ -76,7 +78,7 @@ def gen(rng, idx=None):
         order = list(slots); rng.shuffle(order)
         nested_self = 'Wr<Vec<{T0}>, {T1}>'
         blocks.append(gp.Block({x: slots[x] for x in order}, None, nested_self, [('Vec<{T0}>', tr, {'G': free[0]}, 'where')], 'bn'))
-        if len(free) > 1 and rng.random() < 0.6:
+        if len(free) > 1 and nest_plan == 'two':
             # a second nested member (same or another more specific header)
             slots2 = gp.mk_slots(rng, ['T0', 'T1'])
             self2 = rng.choice([nested_self, 'Wr<Option<{T0}>, {T1}>'])
